@@ -21,10 +21,10 @@ ID = "C19"
 LEVEL = "fault_enumeration"
 SEGMENT_TIMEOUT = 180
 TIERS = {
-    "quick": dict(plans=64, budget_s=70, worlds=4, det_plans=2),
+    "quick": dict(plans=150, budget_s=70, worlds=4, det_plans=2),
     "thorough": dict(plans=6000, budget_s=900, worlds=150, det_plans=8, always_selftest=True),
 }
-LOSSES = ["locus", "gene_only", "neutral", "neutral_sparse", "empty", "depth_below", "depth_above", "stream_error", "seam_drop_locus"]
+LOSSES = ["locus", "locus_sliver", "gene_only", "neutral", "neutral_sparse", "empty", "depth_below", "depth_above", "stream_error", "seam_drop_locus"]
 ROUTES = ["yml", "bam", "cn"]
 OUTS = ["aldy", "vcf", "simple", "none"]
 # full factorial of loss x route x output x {single, multi}; a batch walks through it
@@ -136,6 +136,12 @@ def judge(plan, outcome):
         expect_error = bool(fired.get("stream_error"))
     if loss == "depth_above":
         expect_error = False
+    if loss == "locus_sliver":
+        # a sliver of the locus is covered at full depth: the statement neither demands nor forbids a
+        # call; whatever happens, error and output must be consistent
+        expect_error = not called
+        if expect_error and not multi and not r["exc"]:
+            vs.append(_v("no call and no error for a partly covered locus", **env))
     if expect_error:
         if called:
             vs.append(_v("a genotype was reported although the data are missing",
@@ -164,6 +170,8 @@ def judge(plan, outcome):
     else:
         if not called:
             vs.append(_v("no call although the data are sufficient", exc=r["exc"], **env))
+        elif loss == "locus_sliver":
+            pass
         elif loss == "gene_only":
             # reads cover only the pseudogene: two whole-gene deletions
             for s in res_a[0][1]:
@@ -280,6 +288,15 @@ def _lossy_bam(seg, world, smp, loss, path):
     ga = next(g for g in world["genes"] if g["name"] == seg["gene_a"])
     spans = []
     pad = 0
+    if loss == "locus_sliver":
+        # only a sliver of the locus keeps reads: decent depth where covered, nothing in the
+        # regions used for copy-number calling
+        keep_a, keep_b = next((a, b) for nm, a, b in ga["regions"] if nm == "up")
+        regs = list(ga["regions"]) + list(ga["pregions"] or [])
+        lo, hi = min(a for _, a, b in regs), max(b for _, a, b in regs)
+        spans = [(lo - 400, keep_a + 5), (keep_b - 5, hi + 400)] if keep_a > lo else [(keep_b - 5, hi + 400)]
+        if ga["strand"] == "-":
+            spans = [(lo - 400, keep_a + 5), (keep_b - 5, hi + 400)]
     if loss in ("locus",):
         regs = list(ga["regions"]) + list(ga["pregions"] or [])
         spans = [(min(a for _, a, b in regs) - pad, max(b for _, a, b in regs) + pad)]
@@ -356,7 +373,7 @@ def run_segment(seg):
     effective = True
     records = None
     stream = None
-    if loss in ("locus", "gene_only", "neutral", "neutral_sparse", "empty"):
+    if loss in ("locus", "locus_sliver", "gene_only", "neutral", "neutral_sparse", "empty"):
         sam_path = os.path.join(rd, "s0.bam")
         records = _lossy_bam(seg, world, smp, loss, sam_path)
         effective = records[1] < records[0]
